@@ -1,0 +1,19 @@
+//go:build verif
+
+package fasthttp
+
+// Thin read-only accessors for the scheme-routing checks (property C21), compiled only with -tags verif.
+
+// VerifClientHostClients returns copies of the Client's two host-client maps: m (plaintext) and ms (TLS).
+func VerifClientHostClients(c *Client) (m, ms map[string]*HostClient) {
+	m, ms = map[string]*HostClient{}, map[string]*HostClient{}
+	c.mLock.RLock()
+	for k, v := range c.m {
+		m[k] = v
+	}
+	for k, v := range c.ms {
+		ms[k] = v
+	}
+	c.mLock.RUnlock()
+	return m, ms
+}
